@@ -38,5 +38,7 @@ pub fn run(tier: &str, seed: u64, only: Option<&str>) -> Run {
             Err(e) => run.fail("oracle:prepare", "", &c.id, e, c.text.clone()),
         }
     }
+    // osu!catch end to end (PIPE catch lines)
+    crate::pipe_catch::run(&mut run, tier, seed, only);
     run
 }
